@@ -33,7 +33,7 @@ Section NF.
     | RLoop bt b l e =>
         ((if u then [] else (l, WLoop (nf_bt bt)) :: fst (nfl false b) ++ [(e, WEnd)]), u)
     | RIf bt th None l e =>
-        ((if u then [] else (l, WIf (nf_bt bt)) :: fst (nfl false th) ++ [(e, WElse); (default_loc, WEnd)]), u)
+        ((if u then [] else (l, WIf (nf_bt bt)) :: fst (nfl false th) ++ [(default_loc, WElse); (e, WEnd)]), u)
     | RIf bt th (Some (le, el)) l e =>
         ((if u then [] else (l, WIf (nf_bt bt)) :: fst (nfl false th) ++ (le, WElse) :: fst (nfl false el) ++ [(e, WEnd)]), u)
     end.
